@@ -468,6 +468,18 @@ def _rvn(r, o):
 
 
 def apply(case, files):
+    """in place on the parsed Sourcefiles.  Python-level crashes (TypeError, AttributeError, ...) whose message happens to
+    match vf.xform's refusal pattern ("unsupported operand type(s) ...") are re-raised with a neutral message: they are
+    crashes, not explicit refusals."""
+    try:
+        _apply(case, files)
+    except (TypeError, AttributeError, IndexError, KeyError, ValueError) as ex:
+        if xform.REFUSAL_TEXT.search(str(ex)):
+            raise type(ex)(xform.REFUSAL_TEXT.sub('<..>', str(ex))).with_traceback(ex.__traceback__) from None
+        raise
+
+
+def _apply(case, files):
     from loki import Dimension
     from loki.transformations.array_indexing import (
         resolve_vector_dimension, add_explicit_array_dimensions, remove_explicit_array_dimensions,
@@ -643,6 +655,19 @@ _RVN0 = 'rvn(resolve_implicit_rhs_ranges=True)'
 VIOLATING = ('loki-exception', 'xform-compile-error', 'xform-run-error', 'output-differs')
 
 
+def canon_switch(s):
+    """switch spelling used in signatures: the two non-unit lower bounds are one class"""
+    return re.sub(r'^(lb_[lr])=(0|-1)$', r'\1=nonunit', s)
+
+
+def exception_site(detail):
+    """'TypeError: ... @ File ".../array_indices.py", line 171, in normalize_array_shape_and_access' -> 'TypeError in
+    normalize_array_shape_and_access' (no line number: stable under unrelated edits)"""
+    etype = detail.split(':', 1)[0].strip()
+    m = re.search(r' in (\w+)\s*$', detail.strip())
+    return f'{etype} in {m.group(1)}' if m else etype
+
+
 def sigfn(results_by_id):
     def fails_same(pid, verdict):
         r = results_by_id.get(pid)
@@ -650,22 +675,25 @@ def sigfn(results_by_id):
 
     def sig(case, r):
         swid, xf = case['id'].split('|', 1)
-        fam, verdict = case['xform'], r['verdict']
+        fam, verdict, detail = case['xform'], r['verdict'], r.get('detail', '')
         # a pipeline whose earlier stage alone already fails on the same program is that stage's finding
         # (the later stages only change how the damage shows)
         for stage in PREFIX.get(fam, ()):
             stage_id = _RVN0 if stage == 'rvn()' else stage
             sr = results_by_id.get(f'{swid}|{stage_id}')
             if sr is not None and sr['verdict'] in VIOLATING:
-                fam, xf, verdict = stage.split('(')[0], stage_id, sr['verdict']
+                fam, xf, verdict, detail = stage.split('(')[0], stage_id, sr['verdict'], sr.get('detail', '')
                 break
+        if verdict == 'loki-exception':
+            # a crash is named by where it happens, not by the inputs that reach it
+            return f'loki-exception {exception_site(detail)} xform={fam}'
         # a failing single-switch case explains multi-switch cases that contain the switch (same xform, same verdict)
         if fails_same(f'default|{xf}', verdict):
             return f'{verdict} block=default xform={fam}'
         for s in case['switches']:
             if fails_same(f'{s}|{xf}', verdict):
-                return f'{verdict} block={s} xform={fam}'
-        return f'{verdict} blocks={"+".join(case["switches"]) or "default"} xform={fam}'
+                return f'{verdict} block={canon_switch(s)} xform={fam}'
+        return f'{verdict} blocks={"+".join(canon_switch(s) for s in case["switches"]) or "default"} xform={fam}'
     return sig
 
 
